@@ -304,8 +304,8 @@ class Dimension:
 
         self = super().__new__(cls)
         self._initialized = False
-        cls._known[key] = self
-        return self
+        # when several threads get here together, they must all leave with one object
+        return cls._known.setdefault(key, self)
 
     def __init__(
         self,
@@ -659,8 +659,8 @@ class Prefix:
 
         self = super().__new__(cls)
         self._initialized = False
-        cls._known[key] = self
-        return self
+        # when several threads get here together, they must all leave with one object
+        return cls._known.setdefault(key, self)
 
     def __init__(
         self,
@@ -930,8 +930,8 @@ class Unit:
         self._initialized = False
         if not factors:
             key = cls._build_key(prefix, {self: 1})
-        cls._known[key] = self
-        return self
+        # when several threads get here together, they must all leave with one object
+        return cls._known.setdefault(key, self)
 
     def __init__(
         self,
@@ -1659,8 +1659,8 @@ class Logarithm:
 
         self = super().__new__(cls)
         self._initialized = False
-        cls._known[key] = self
-        return self
+        # when several threads get here together, they must all leave with one object
+        return cls._known.setdefault(key, self)
 
     def __init__(
         self,
@@ -1753,8 +1753,8 @@ class LogarithmicUnit:
 
         self = super().__new__(cls)
         self._initialized = False
-        cls._known[key] = self
-        return self
+        # when several threads get here together, they must all leave with one object
+        return cls._known.setdefault(key, self)
 
     def __init__(
         self,
